@@ -221,7 +221,7 @@ def generate():
     L.append("")
     L.append("end NQ.Gen")
     common.write_if_changed(os.path.join(common.GEN_DIR, "MsgLayouts.lean"), "\n".join(L) + "\n")
-    return ["NQ.MsgObl.layouts_wf", "NQ.MsgObl.structs_wf", "NQ.MsgObl.dispatch_ok",
+    return ["NQ.MsgObl.msg_layouts_pinned", "NQ.MsgObl.layouts_wf", "NQ.MsgObl.structs_wf", "NQ.MsgObl.dispatch_ok",
             "NQ.MsgObl.enc_probes_match", "NQ.MsgObl.dec_probes_match", "NQ.MsgObl.struct_probes_match"]
 
 
